@@ -153,6 +153,16 @@ def gen_dt(r):
     us = r.choice([0, 0, 499, 500, 1000, 123456, 999499])
     tz = r.choice([None, 0, 0, 60, -300, 330, 840, -720])
     y = r.choice([1900, 1901, 1970, 1999, 2000, 2024, 2100, 2155]) if tz in (None, 0) else r.choice([1950, 2000, 2024, 2100])
+    c = r.random()
+    if c < 0.08:
+        # the second occurrence (fold=1) of a wall-clock time in a zone where times repeat
+        return {'$dt': [r.choice([1950, 2000, 2024, 2100]), r.randint(1, 12), r.randint(1, 28), r.randint(1, 22), r.randint(0, 59), r.randint(0, 59), us],
+                'tz': 'RH', 'fold': r.choice([1, 1, 0])}
+    if c < 0.14:
+        # a naive time inside the hour repeated when daylight saving time ends (in the zones the runner may pin: US Eastern
+        # 2021-11-07 01:xx, New Zealand 2021-04-04 02:xx), second occurrence; an ordinary time under every other zone
+        mo_, d_, h_ = r.choice([(11, 7, 1), (4, 4, 2)])
+        return {'$dt': [2021, mo_, d_, h_, r.randint(0, 59), r.randint(0, 59), us], 'tz': None, 'fold': r.choice([1, 1, 0])}
     return {'$dt': [y, r.randint(1, 12), r.randint(1, 28), r.randint(0, 23), r.randint(0, 59), r.randint(0, 59), us],
             'tz': tz}
 
